@@ -50,7 +50,8 @@ def sched_params(cfg):
             out[key] = {"type": "plateau", "factor": 0.5, "patience": 0, "threshold": 0.5, "cooldown": 1,
                         "min_lr": 1e-7}
         elif s == "cyclic":
-            out[key] = {"type": "cyclic", "step_size_up": 2, "step_size_down": 2}
+            out[key] = {"type": "cyclic", "step_size_up": 2, "step_size_down": 2,
+                        "base_lr": float(cfg["lr"][key]) / 2, "max_lr": float(cfg["lr"][key]) * 2}
         else:
             raise ValueError(s)
     return out
@@ -318,8 +319,25 @@ def nparams(pt):
     return [len(_plist(m)) for _, m in _models(pt)]
 
 
-def compare_numeric(x, y, tol):
-    """first difference between two numeric_obs dicts beyond `tol` (relative, normwise), or None"""
+def rel_l2(a, b):
+    """relative Frobenius-norm difference ||a-b|| / ||b|| (complex-safe)"""
+    a = np.asarray(a).astype(np.complex128)
+    b = np.asarray(b).astype(np.complex128)
+    if a.shape != b.shape:
+        return float("inf")
+    d = np.linalg.norm((a - b).ravel())
+    if not np.isfinite(d):
+        return float("inf")
+    return float(d / max(1e-30, np.linalg.norm(b.ravel())))
+
+
+def compare_numeric(x, y, tol, arr_l2=None, arr_max=None):
+    """first difference between two numeric_obs dicts, or None.  Scalars and histories: relative
+    max-norm `tol`.  Object / probe arrays: relative Frobenius norm `arr_l2` and relative max-norm
+    `arr_max` (both default to `tol`): Adam's gradient normalisation amplifies float32 rounding
+    noise at single, barely illuminated pixels, which a pure max-norm would report."""
+    arr_l2 = tol if arr_l2 is None else arr_l2
+    arr_max = tol if arr_max is None else arr_max
     if x["num_iters"] != y["num_iters"]:
         return "iteration count %d vs %d" % (x["num_iters"], y["num_iters"])
     if len(x["losses"]) != len(y["losses"]):
@@ -337,6 +355,8 @@ def compare_numeric(x, y, tol):
         if x[nm].shape != y[nm].shape:
             return "%s shape %s vs %s" % (nm, x[nm].shape, y[nm].shape)
         r = rel(x[nm], y[nm])
-        if not (r <= tol):
-            return "%s differs by rel %.3g (tolerance %.1g)" % (nm, r, tol)
+        r2 = rel_l2(x[nm], y[nm])
+        if not (r <= arr_max and r2 <= arr_l2):
+            return "%s differs by rel %.3g max-norm / %.3g Frobenius (tolerances %.1g / %.1g)" % (
+                nm, r, r2, arr_max, arr_l2)
     return None
